@@ -31,6 +31,23 @@ Theorem C06_lock_progress : forall c i ttl, tasks c i = Idle -> lock_live c = fa
 Proof. exact lock_progress. Qed.
 Print Assumptions C06_lock_progress.
 
+(* is_locked reads liveness and changes nothing *)
+Theorem C06_is_locked : forall c, (snd (step c Probe) = true <-> exists tk d, lock c = Some (tk, d) /\ now c < d) /\ fst (step c Probe) = c.
+Proof. exact (fun c => conj (probe_spec c) (probe_pure c)). Qed.
+Print Assumptions C06_is_locked.
+
+(* is_locked(wait, step), alone on the key: the answer is the liveness ceil(wait/step) steps from now, for every wait and step > 0 *)
+Theorem C06_is_locked_wait : forall fuel c w s b, 0 < s ->
+  is_locked_wait fuel c w s = Some b -> b = lock_live (tick c (sleeps w s * s)).
+Proof. exact is_locked_wait_spec. Qed.
+Print Assumptions C06_is_locked_wait.
+Theorem C06_is_locked_wait_total : forall fuel c w s, 0 < s -> sleeps w s < Z.of_nat fuel -> is_locked_wait fuel c w s <> None.
+Proof. exact is_locked_wait_total. Qed.
+Print Assumptions C06_is_locked_wait_total.
+Example C06_is_locked_wait_example :
+  let c := run [Try 0 16] in (is_locked_wait 9 c 8 6, is_locked_wait 9 c 20 6, is_locked_wait 9 c 20 4, sleeps 20 6) = (Some true, Some false, Some false, 4).
+Proof. vm_compute. reflexivity. Qed.
+
 (* non-vacuity: A overstays, B acquires, A's late release does not free B's lock, C stays out *)
 Example C06_example :
   let evs := [Try 0 16; Tick 20; Try 1 16; Leave 0; Try 2 16] in
